@@ -232,7 +232,7 @@ impl<S: USet> Eng<S> {
     fn script(&mut self, slot: usize) -> Vec<u64> {
         self.script_n(slot, 48)
     }
-    fn script_n(&mut self, slot: usize, n: usize) -> Vec<u64> {
+    pub fn script_n(&mut self, slot: usize, n: usize) -> Vec<u64> {
         if self.mode != Mode::Script {
             return vec![];
         }
@@ -277,7 +277,7 @@ impl<S: USet> Eng<S> {
         }
         v
     }
-    fn script_done(&mut self, pushed: Vec<u64>) -> String {
+    pub fn script_done(&mut self, pushed: Vec<u64>) -> String {
         if self.mode != Mode::Script {
             return String::new();
         }
@@ -831,7 +831,12 @@ impl<S: USet> Eng<S> {
         let w = S::W as u64;
         let mx = S::max_elem();
         let heap = self.slots[i].as_ref().and_then(|s| s.repr().1);
-        let pick = self.rng.below(16);
+        let mut pick = self.rng.below(16);
+        // regimes of small values stay pure most of the time, otherwise every history ends in the plain table
+        let small = matches!(regime, 0 | 1 | 2 | 7 | 8 | 9 | 10);
+        if small && matches!(pick, 1 | 5 | 6) && !self.rng.chance(1, 12) {
+            pick = 10;
+        }
         let v = match pick {
             0 => self.rng.below(8),
             1 => {
